@@ -932,16 +932,19 @@ static Hashmaster *hasher(int alg)
   HashFactory hf;
   return hf.getHasher(HashFactory::getType((u8_t)alg));
 }
-bytes hash_string(int alg, const bytes &m)
+bytes hash_string(int alg, const bytes &m, int addr_off)
 {
   Hashmaster *h = hasher(alg);
   bytes out(hash_len(alg));
-  // exact-size heap copy so that any over-read is visible to ASan
-  u8_t *copy = new u8_t[m.size() ? m.size() : 1];
+  // heap copy that ends exactly where the message ends, so that any over-read is visible to ASan; the message may
+  // start at any address residue (a caller's message need not be word aligned)
+  addr_off &= 7;
+  u8_t *raw = new u8_t[m.size() + (size_t)addr_off + (m.empty() && !addr_off ? 1 : 0)];
+  u8_t *copy = raw + addr_off;
   if (!m.empty())
     memcpy(copy, m.data(), m.size());
   h->getStringHash(copy, (u32_t)m.size(), out.data());
-  delete[] copy;
+  delete[] raw;
   delete h;
   return out;
 }
